@@ -2,7 +2,7 @@ SPECIFICATION Spec
 CONSTANTS
   Cfg <- CfgT
   Kinds = {"scion"}
-  Shapes <- ShapesTableQ
+  Shapes <- ShapesTable
   Vias = {0, 21, 1, 2, 3, 4, 5}
   SrcDom = {"L", "F"}
   DstDom = {"F"}
